@@ -91,6 +91,11 @@ def plan(tier, seed):
         for fn, t in (("water.xyz", "pdb"), ("POSCAR.water", "xyz"), ("FCIDUMP.molpro.h2", "xyz"), ("water_trajectory.xyz", "sdf")):
             cases.append({"src": fn, "srcfmt": None, "explicit_in": False, "target": t, "dirpat": pat,
                           "opts": {"c": False, "m": fn == "water_trajectory.xyz", "i": False, "o": False}})
+    # an output name in a directory that does not exist (a mistyped path): the API calls fail when they open the output
+    for fn, t, m in (("water.xyz", "pdb", False), ("water_trajectory.xyz", "sdf", True), ("water.xyz", "xyz", False), ("FCIDUMP.molpro.h2", "xyz", False)):
+        for o in (False, True):
+            cases.append({"src": fn, "srcfmt": None, "explicit_in": False, "target": t, "missing_outdir": True,
+                          "opts": {"c": False, "m": m, "i": False, "o": o}})
     # input names containing characters that shells and glob() treat as patterns, next to a file the pattern would match: the file
     # NAMED is converted, as by the API
     for name, sibling in (("scan[3].xyz", "scan3.xyz"), ("[Zn(H2O)6].xyz", "Z.xyz"), ("frame?.xyz", "frame1.xyz"), ("all*.xyz", "all_frames.xyz")):
@@ -298,6 +303,9 @@ def run_case(case):
                 if case.get("globname"):
                     shutil.copy(os.path.join(bootstrap.DATA_DIR, "s66_4114_02WaterMeOH.xyz"), os.path.join(root, which, sub, case["globname"][1]))
             label = f"{sub}/{case['globname'][0]} (next to {case['globname'][1]})" if case.get("globname") else f"{sub}/{label}"
+        odir = "no_such_dir" if case.get("missing_outdir") else ""
+        if odir:
+            counters["missing_outdir_cases"] = 1
         infmt = srcfmt if (explicit_in or (opts["i"] and srcfmt)) else None
         outfmt = target if give_o else None
         args = []
@@ -311,8 +319,8 @@ def run_case(case):
             args.append("-m")
         tag = f"{label} -> {target} {' '.join(args)}"
         # (a) CLI
-        out_cli = os.path.join(root, "cli", sub, outname)
-        os.makedirs(os.path.dirname(out_cli), exist_ok=True)
+        out_cli = os.path.join(root, "cli", sub, odir, outname)
+        os.makedirs(os.path.dirname(out_cli) if not odir else os.path.join(root, "cli", sub), exist_ok=True)
         if case.get("link_out"):
             # every output name is a symbolic link into a store directory whose file has another name
             counters["symlink_cases"] = 1
@@ -321,7 +329,7 @@ def run_case(case):
                 os.makedirs(os.path.join(root, which), exist_ok=True)
                 os.symlink(os.path.join(root, which, "store", case["link_out"]), os.path.join(root, which, outname))
             label += f" (output link -> store/{case['link_out']})"
-        if not case.get("inplace"):
+        if not case.get("inplace") and not odir:
             with open(out_cli, "wb") as fh:
                 fh.write(SENTINEL)
         env = dict(os.environ, PYTHONPATH=bootstrap.REPO, PYTHONHASHSEED="0")
@@ -331,17 +339,17 @@ def run_case(case):
         counters["cli_runs"] += 1
         cli_bytes = open(out_cli, "rb").read() if os.path.exists(out_cli) else None
         # (b) API
-        out_api = os.path.join(root, "api", sub, outname)
-        os.makedirs(os.path.dirname(out_api), exist_ok=True)
-        if not case.get("inplace"):
+        out_api = os.path.join(root, "api", sub, odir, outname)
+        os.makedirs(os.path.dirname(out_api) if not odir else os.path.join(root, "api", sub), exist_ok=True)
+        if not case.get("inplace") and not odir:
             with open(out_api, "wb") as fh:
                 fh.write(SENTINEL)
         api_outcome, api_exc = api_run(src_for["api"], infmt, out_api, outfmt, opts["m"], opts["c"])
         counters["api_runs"] += 1
         api_bytes = open(out_api, "rb").read() if os.path.exists(out_api) else None
         # (c) convert()
-        out_cv = os.path.join(root, "cv", sub, outname)
-        os.makedirs(os.path.dirname(out_cv), exist_ok=True)
+        out_cv = os.path.join(root, "cv", sub, odir, outname)
+        os.makedirs(os.path.dirname(out_cv) if not odir else os.path.join(root, "cv", sub), exist_ok=True)
         cwd0 = os.getcwd()
         cv_names = [src_for["cv"], out_cv]
         if sub:
@@ -389,7 +397,7 @@ def run_case(case):
                     viols.append(_v("cli-error-not-named", f"{tag}: stderr does not name the problem ({api_outcome}): {r.stderr[-200:]}"))
                 if api_outcome in ("PrepareDumpError", "FileFormatError") or (api_outcome in ("LoadError", "FileNotFoundError") and not opts["m"]):
                     # pre-flight rejection (nothing could be written): the existing output must be untouched
-                    pre_bytes = open(src, "rb").read() if case.get("inplace") else SENTINEL
+                    pre_bytes = open(src, "rb").read() if case.get("inplace") else (None if odir else SENTINEL)
                     if cli_bytes != pre_bytes:
                         viols.append(_v("cli-preflight-clobbers-output", f"{tag}: rejected with {api_outcome} before writing, but the existing "
                                         "output file was modified by the CLI"))
